@@ -254,6 +254,18 @@ def subscription_two_fields(sm, case):
     c["doc"]["frags"].append([name, sub, [], op["sels"] + [O.F(other[0])]])
     op["sels"] = [O.SP(name)]
     yield "subscription-two-root-fields:fragment-spread", c
+    c = _clone(case)
+    op = c["doc"]["ops"][0]
+    name = _fresh_frag(c["doc"], ["OneField", "OF"])
+    c["doc"]["frags"].append([name, sub, [], [O.F(other[0])]])
+    op["sels"] = op["sels"] + [O.SP(name)]
+    yield "subscription-two-root-fields:field-plus-spread", c
+    c = _clone(case)
+    op = c["doc"]["ops"][0]
+    name = _fresh_frag(c["doc"], ["OneField", "OF"])
+    c["doc"]["frags"].append([name, sub, [], [O.F(other[0])]])
+    op["sels"] = [O.SP(name)] + op["sels"]
+    yield "subscription-two-root-fields:spread-plus-field", c
 
 
 # =============================================================================================
@@ -1185,4 +1197,271 @@ def generated_seeds(max_nodes):
 
 
 def all_seeds(max_nodes):
-    return hand_seeds() + list(generated_seeds(max_nodes))
+    return hand_seeds() + list(generated_seeds(max_nodes)) + placement_seeds()
+
+
+# =============================================================================================
+# placement seeds: selections inside untyped / same-typed inline fragments below parents whose
+# type is wrapped (T, T!, [T], [T!]!), one and two levels deep (schema D).  Every operator then
+# places its violation INSIDE those fragments, where the validator has to look through the wrapper.
+
+
+def placement_seeds():
+    F, I, mkop, mkdoc = O.F, O.I, O.mkop, O.mkdoc
+    out = []
+    parents = [("first", "Dog"), ("second", "Dog"), ("kennel", "Dog"), ("dogs", "Dog"), ("pets", "Pet")]
+
+    def body():
+        return [F("name"), F("owner", [F("name")]), F("tag", args={"r": "1", "i": "2"})]
+
+    inc = [["include", {"if": "true"}]]
+    styles = [
+        ("untyped", lambda t: [I(None, body())]),
+        ("untyped-directive", lambda t: [I(None, body(), dirs=copy.deepcopy(inc))]),
+        ("same-type", lambda t: [I(t, body())]),
+        ("untyped-untyped", lambda t: [I(None, [I(None, body())])]),
+        ("same-type-untyped", lambda t: [I(t, [I(None, body(), dirs=copy.deepcopy(inc))])]),
+        ("untyped-in-child", lambda t: [F("owner", [I(None, [F("name"), F("best", [I(None, [F("name")])])])])]),
+    ]
+    for fname, tname in parents:
+        for tag, mk in styles:
+            out.append(("D", {"doc": mkdoc([mkop([F(fname, mk(tname))])]), "vars": {}, "placement": "%s/%s" % (fname, tag)}))
+    return out
+
+
+# =============================================================================================
+# custom scalars in argument position: every literal kind (unlabelled: whether a literal is acceptable
+# is the scalar's business -- validation must RETURN either way)
+
+SCALAR_LITERALS = [
+    ("int", "1", None),
+    ("float", "1.5", None),
+    ("string", '"x"', None),
+    ("boolean", "true", None),
+    ("null", "null", None),
+    ("enum", "FOO", None),
+    ("list", '[1, "a"]', None),
+    ("empty-list", "[]", None),
+    ("object", "{a: 1}", None),
+    ("empty-object", "{}", None),
+    ("nested-object-enum", "{a: {b: FOO}}", None),
+    ("object-with-variable", "{a: $V}", ("Int", None, [OMIT, 1])),
+    ("list-with-variable", "[$V]", ("Int", None, [OMIT, 1])),
+    ("list-of-objects", "[{a: 1}, {b: [FOO]}]", None),
+    ("variable", "$V", "SAME"),
+]
+
+
+@operator("custom-scalar-literal", None)
+def custom_scalar_literal(sm, case):
+    def is_custom(tname):
+        t = sm["types"].get(tname)
+        return t is not None and t["kind"] == "scalar"
+
+    def pred(s, p):
+        fd = _fdef(sm, p, s) if s[0] == "f" else None
+        return fd is not None and any(is_custom(S.named_of(S.parse_type(a["type"]))) for a in fd["args"].values())
+
+    for c0, lst0, i0, parent, s0 in _positions(sm, case, pred):
+        fd = _fdef(sm, parent, s0)
+        for an, a in fd["args"].items():
+            tname = S.named_of(S.parse_type(a["type"]))
+            if not is_custom(tname) or an in s0[4]:
+                continue
+            impl = sm["types"][tname].get("impl", "code")
+            for kind, text, spec in SCALAR_LITERALS:
+                c = _clone(c0)
+                l2 = _same_container(sm, c0, c, lst0)
+                s = l2[i0]
+                t = text
+                if spec is not None:
+                    vtype = a["type"] if spec == "SAME" else spec[0]
+                    choices = [OMIT] if spec == "SAME" else list(spec[2])
+                    name = O._fresh(_all_var_names(c["doc"]), ["sv", "scalarvar"])
+                    for op in _reaching_ops(c["doc"], l2):
+                        op["vars"].append([name, vtype, None])
+                    c["vars"][name] = choices
+                    t = text.replace("$V", "$" + name)
+                dict_args(s, [(an, t)])
+                yield "custom-scalar-literal:%s:%s" % (impl, kind), c
+    # as the default value of a variable of that type
+    for oi, op in enumerate(case["doc"]["ops"]):
+        for tname, t in sm["types"].items():
+            if t["kind"] != "scalar":
+                continue
+            for kind, text, spec in SCALAR_LITERALS:
+                if spec is not None:
+                    continue
+                c = _clone(case)
+                name = _fresh_var(c["doc"]["ops"][oi], ("dv", "defv"))
+                c["doc"]["ops"][oi]["vars"].append([name, tname, text])
+                c["vars"][name] = [OMIT]
+                yield "custom-scalar-literal:%s:variable-default:%s" % (t.get("impl", "code"), kind), c
+        break
+
+
+# =============================================================================================
+# three (four) fields under one response name, exactly ONE pair of which conflicts
+
+
+def _neutral_conflict_triples(sm, parent, s):
+    """for a composite field `s` below `parent` whose type has two leaf fields a != b (same declared
+    type not required: the names differ): N = s{a}, A = s{x: a}, B = s{x: b} -- only A/B conflict"""
+    fd = _fdef(sm, parent, s)
+    if fd is None or s[5] is None:
+        return None
+    tname = S.named_of(S.parse_type(fd["type"]))
+    leaves = _leaf_fields(sm, tname) if S.kind_of(sm, tname) in ("object", "interface") else []
+    if len(leaves) < 2:
+        return None
+    a, b = leaves[0], leaves[1]
+
+    def mk(children):
+        n = copy.deepcopy(s)
+        n[5] = children
+        return n
+
+    return mk([O.F(a)]), mk([O.F(a, alias="x")]), mk([O.F(b, alias="x")])
+
+
+def _exclusive_triples(sm, tname):
+    """below abstract type `tname`: N = ... on X { x: fa }, A = ... on Y { x: fb }, B = ... on Y { x: fc }
+    with X != Y objects, fb != fc, all three of one declared type -- only A/B conflict"""
+    poss = S.possible_types(sm, tname)
+    for y in poss:
+        fy = _leaf_fields(sm, y)
+        for i1, fb in enumerate(fy):
+            for fc in fy[i1 + 1 :]:
+                tb = S.fields_of(sm, y)[fb]["type"]
+                if S.fields_of(sm, y)[fc]["type"] != tb:
+                    continue
+                for x in poss:
+                    if x == y:
+                        continue
+                    for fa in _leaf_fields(sm, x):
+                        if S.fields_of(sm, x)[fa]["type"] == tb:
+                            return O.I(x, [O.F(fa, alias="x")]), O.I(y, [O.F(fb, alias="x")]), O.I(y, [O.F(fc, alias="x")])
+    return None
+
+
+def _arrangements(n_neutral):
+    """orders of [A, B] + n neutrals, as index tuples into [A, B, N1, N2..]; all permutations"""
+    import itertools
+
+    return list(itertools.permutations(range(2 + n_neutral)))
+
+
+@operator("conflict-among-several", "OverlappingFieldsCanBeMergedChecker")
+def conflict_among_several(sm, case):
+    def comppred(s, p):
+        return s[0] == "f" and p is not None and _neutral_conflict_triples(sm, p, s) is not None
+
+    for count, sizetag in ((1, "three"), (2, "four")):
+        for c0, lst0, i0, parent, s0 in _positions(sm, case, comppred):
+            n, a, b = _neutral_conflict_triples(sm, parent, s0)
+            items = [a, b] + [copy.deepcopy(n) for _ in range(count)]
+            for perm in _arrangements(count):
+                if count == 2 and perm.index(2) > perm.index(3):
+                    continue  # the two neutrals are interchangeable
+                postag = "".join("AB"[k] if k < 2 else "n" for k in perm)
+                for place in ("direct", "inline", "spreads"):
+                    c = _clone(c0)
+                    l2 = _same_container(sm, c0, c, lst0)
+                    nodes = [copy.deepcopy(items[k]) for k in perm]
+                    if place == "inline":
+                        nodes = [O.I(None if j % 2 else parent, [x]) for j, x in enumerate(nodes)]
+                    elif place == "spreads":
+                        used = {f[0] for f in c["doc"]["frags"]}
+                        wrapped = []
+                        for j, x in enumerate(nodes):
+                            name = O._fresh(used, ["Part%d" % j, "P%d" % j, "Partq%d" % j])
+                            used.add(name)
+                            c["doc"]["frags"].append([name, parent, [], [x]])
+                            wrapped.append(O.SP(name))
+                        nodes = wrapped
+                    l2[i0 : i0 + 1] = nodes
+                    yield "conflict-among-several:%s:merged-parents:%s:%s" % (sizetag, place, postag), c
+            break  # one composite position per document
+
+    def abspred(s, p):
+        fd = _fdef(sm, p, s) if s[0] == "f" else None
+        if fd is None or s[5] is None:
+            return False
+        t = S.named_of(S.parse_type(fd["type"]))
+        return S.kind_of(sm, t) in ("interface", "union") and _exclusive_triples(sm, t) is not None
+
+    for c0, lst0, i0, parent, s0 in _positions(sm, case, abspred):
+        t = S.named_of(S.parse_type(_fdef(sm, parent, s0)["type"]))
+        n, a, b = _exclusive_triples(sm, t)
+        items = [a, b, n]
+        for perm in _arrangements(1):
+            postag = "".join("AB"[k] if k < 2 else "n" for k in perm)
+            for place in ("direct", "spreads"):
+                c = _clone(c0)
+                l2 = _same_container(sm, c0, c, lst0)
+                s = l2[i0]
+                nodes = [copy.deepcopy(items[k]) for k in perm]
+                if place == "spreads":
+                    used = {f[0] for f in c["doc"]["frags"]}
+                    wrapped = []
+                    for j, x in enumerate(nodes):
+                        name = O._fresh(used, ["Ex%d" % j, "E%d" % j, "Exq%d" % j])
+                        used.add(name)
+                        c["doc"]["frags"].append([name, x[1], [], x[3]])
+                        wrapped.append(O.SP(name))
+                    nodes = wrapped
+                s[5].extend(nodes)
+                yield "conflict-among-several:three:exclusive-objects:%s:%s" % (place, postag), c
+        break
+
+
+# =============================================================================================
+# several operations sharing fragments; only a later one carries the violation
+
+PER_OPERATION_RULES = (
+    "UniqueVariableNamesChecker",
+    "NoUndefinedVariablesChecker",
+    "NoUnusedVariablesChecker",
+    "VariablesInAllowedPositionChecker",
+    "KnownFragmentNamesChecker",
+    "NoUnusedFragmentsChecker",
+    "PossibleFragmentSpreadsChecker",
+    "NoFragmentCyclesChecker",
+    "SingleFieldSubscriptionsChecker",
+    "UniqueDirectivesPerLocationChecker",
+    "KnownDirectivesChecker",
+    "OverlappingFieldsCanBeMergedChecker",
+)
+
+
+def with_earlier_operations(sm, seed, mutant, n_earlier):
+    """document = n_earlier valid operations (copies of the seed's operation, which spread the seed's
+    fragments, plus root-level spreads of the root-typed fragments the mutant added) followed by the
+    mutant's operation.  None when the construction does not apply."""
+    sdoc, mdoc = seed["doc"], mutant["doc"]
+    if len(sdoc["ops"]) != 1 or len(mdoc["ops"]) != 1 or mdoc.get("extra"):
+        return None
+    kind = sdoc["ops"][0].get("kind", "query")
+    root = sm.get(kind)
+    doc = copy.deepcopy(mdoc)
+    target = doc["ops"][0]
+    target["name"] = target["name"] or "Target"
+    seed_frags = {f[0] for f in sdoc["frags"]}
+    reached = _spread_closure(doc, target["sels"])  # only fragments the violating operation uses are shared
+    added = [f for f in mdoc["frags"] if f[0] not in seed_frags and f[1] == root and f[0] in reached]
+    earlier = []
+    for k in range(n_earlier):
+        op = copy.deepcopy(sdoc["ops"][0])
+        op["name"] = "Earlier%d" % (k + 1)
+        if kind == "subscription":
+            single = [f for f in mdoc["frags"] if f[1] == root and f[0] in reached and len(f[3]) == 1 and f[3][0][0] == "f"]
+            if single:
+                op["sels"] = [O.SP(single[0][0])]
+                op["vars"] = []
+        else:
+            for f in added:
+                op["sels"].append(O.SP(f[0]))
+        earlier.append(op)
+    doc["ops"] = earlier + [target]
+    out = {"doc": doc, "vars": dict(mutant.get("vars", {})), "muts": list(mutant.get("muts", [])) + ["earlier-operations:%d" % n_earlier]}
+    return out
